@@ -62,7 +62,10 @@ def gen(rng, scenario, tier):
             ev.append(["same", None, np_seed(rng)])
         else:
             ev.append(["u", b, np_seed(rng)])
-    return {"cfg": cfg, "events": ev, "drift_positions": drifts, "int_ref": int_ref}
+    # one history in five arrives as DataFrames: with distinct column labels, or (several features) with a label used twice - as
+    # after pd.concat([s1, s2], axis=1) of equally named Series; features are columns by position, whatever they are called
+    frames = rng.choice([None, None, None, None, "unique", "dup" if d > 1 else "unique"])
+    return {"cfg": cfg, "events": ev, "drift_positions": drifts, "int_ref": int_ref and frames is None, "frames": frames}
 
 
 def build(cfg):
@@ -118,6 +121,15 @@ def _run(case, ctx, rec):
     drifted_batch = None
     drifts = 0
     epoch_by = "set_reference"
+
+    def wrap(arr):
+        if not case.get("frames"):
+            return arr
+        labels = [f"f{j}" for j in range(arr.shape[1])] if case["frames"] == "unique" else (["f", "f", "g", "h"][: arr.shape[1]])
+        return pd.DataFrame(arr, columns=labels)
+
+    if case.get("frames"):
+        ctx.fault("batches_as_dataframes_" + case["frames"] + "_labels")
     for i, (op, rows, seed) in enumerate(case["events"]):
         ctx.step = i
         det = ctx.maybe_fork(det)
@@ -126,7 +138,7 @@ def _run(case, ctx, rec):
             np.random.seed(seed)
             # an integer-valued reference may arrive as an integer-typed array (the batches that follow are real-valued)
             given = X.astype("int64") if (case.get("int_ref") and i == 0) else X.copy()
-            ctx.call("C07:set_reference", det.set_reference, given)
+            ctx.call("C07:set_reference", det.set_reference, wrap(given))
             if case.get("int_ref") and i == 0:
                 ctx.probe("integer_typed_reference")
             if i > 0:
@@ -148,7 +160,7 @@ def _run(case, ctx, rec):
         ref_before = spec.ref.copy()
         del rec.log[:]
         np.random.seed(seed)
-        ctx.call("C07:update", det.update, X.copy())
+        ctx.call("C07:update", det.update, wrap(X.copy()))
         ctx.sim_time += 1
         uses_boot = (spec.j + 1 == 2 and db != 3)
         eps0 = float(det.epsilon[0]) if uses_boot and len(det.epsilon) >= 1 else None
